@@ -341,6 +341,51 @@ def run():
             ck.fail("history-dependent-result", {"document": f, "position": 1, "session_prefix": ["twin:" + f]},
                     {k: obs.get(k) for k in diff}, {k: b.get(k) for k in diff},
                     only_lowlevel_bytes=False, vanishes_with_terms_reset=False, level="twin")
+    # variant sessions: the same document after a copy of itself in an alternative accepted encoding (signatures swapped)
+    vfiles = [f for f in files if f.endswith(".psb")] + [f for f in files if f.endswith(".psd")][: (40 if ck.tier == "thorough" else 10)]
+    with ThreadPoolExecutor(max_workers=14) as ex:
+        vr = list(ex.map(lambda f: worker(mode, ["variant:" + f, f]), vfiles))
+    for f, r in zip(vfiles, vr):
+        if r.get("error") or len(r["results"]) != 2:
+            ck.notes.append("variant session failed on %s: %s" % (f, str(r.get("error"))[-200:]))
+            continue
+        ck.evals += 1
+        vobs, obs = r["results"][0][1], r["results"][1][1]
+        ck.count("variant:" + ("changed" if vobs.get("variant_blocks_changed") else "none") + (":rejected" if "exception" in vobs else ""))
+        for g in r["globals_changed"]:
+            if g != "psd_tools.psd.descriptor._TERMS":
+                changed_globals.add(g)
+        b = base.get(f)
+        if b is None:
+            continue
+        diff = sorted(k for k in set(b) | set(obs) if k != "lowlevel_rewrite_terms_reset" and b.get(k) != obs.get(k))
+        if diff:
+            ck.fail("history-dependent-result", {"document": f, "position": 1, "session_prefix": ["variant:" + f]},
+                    {k: obs.get(k) for k in diff}, {k: b.get(k) for k in diff},
+                    only_lowlevel_bytes=False, vanishes_with_terms_reset=False, level="variant")
+    # cross-document moves: a pair processed alone vs after other pairs
+    movable = [f for f in files if os.path.getsize(f) <= 60_000][: (24 if ck.tier == "thorough" else 10)]
+    pairs = ["xmove:%s|%s" % (movable[i], movable[(i + 3) % len(movable)]) for i in range(len(movable))]
+    with ThreadPoolExecutor(max_workers=14) as ex:
+        palone = list(ex.map(lambda it: worker("plain", [it]), pairs))
+        order = list(pairs)
+        ck.rng.shuffle(order)
+        ptog = worker("plain", order + order[: len(order) // 2], timeout=1500)
+    pbase = {it: r["results"][0][1] for it, r in zip(pairs, palone) if not r.get("error") and r["results"]}
+    if ptog.get("error"):
+        ck.notes.append("cross-move session failed: %s" % ptog["error"][-200:])
+    else:
+        for g in ptog["globals_changed"]:
+            if g != "psd_tools.psd.descriptor._TERMS":
+                changed_globals.add(g)
+        for idx, (it, obs) in enumerate(ptog["results"]):
+            ck.evals += 1
+            ck.count("xmove:" + ("skipped" if "skipped" in obs else "exception" if "exception" in obs else "moved"))
+            b = pbase.get(it)
+            if b is not None and b != obs:
+                pre = (order + order[: len(order) // 2])[:idx]
+                ck.fail("history-dependent-result", {"document": it, "position": idx, "session_prefix": shrink_prefix("plain", it, pre, b)},
+                        obs, b, only_lowlevel_bytes=False, vanishes_with_terms_reset=False, level="cross-move")
     # a module-level container of psd_tools that changes while documents are processed is process-wide state the
     # inventory did not know: the "no other global" part of the argument no longer checks (an obligation, not by itself a failing input)
     ck.obligations.append(("module-globals-unchanged", not changed_globals,
